@@ -664,6 +664,11 @@ func (s *Shard) validateSeriesAndFields(points []models.Point) ([]models.Point, 
 		}
 	}
 
+	// Types of the fields that earlier points of this batch are going to create, by measurement.
+	// A later point that uses such a field with another type conflicts just like a point that
+	// disagrees with a field that already exists: it is dropped, the rest of the batch is kept.
+	var pendingTypes map[string]map[string]influxql.DataType
+
 	j = 0
 	for i, p := range points {
 		// Skip any points with only invalid fields.
@@ -709,6 +714,32 @@ func (s *Shard) validateSeriesAndFields(points []models.Point) ([]models.Point, 
 			continue
 		}
 
+		// Check against the fields created by earlier points of this batch.
+		if pending := pendingTypes[string(name)]; len(pending) > 0 {
+			conflict := false
+			iter.Reset()
+			for iter.Next() {
+				dataType := dataTypeFromModelsFieldType(iter.Type())
+				if dataType == influxql.Unknown || bytes.Equal(iter.FieldKey(), timeBytes) {
+					continue
+				}
+				if typ, ok := pending[string(iter.FieldKey())]; ok && typ != dataType {
+					if reason == "" {
+						reason = fmt.Sprintf(
+							"%s: input field \"%s\" on measurement \"%s\" is type %s, already exists as type %s",
+							ErrFieldTypeConflict, iter.FieldKey(), name, dataType, typ)
+					}
+					conflict = true
+					break
+				}
+			}
+			if conflict {
+				dropped++
+				atomic.AddInt64(&s.stats.WritePointsDropped, 1)
+				continue
+			}
+		}
+
 		points[j] = points[i]
 		j++
 
@@ -730,6 +761,17 @@ func (s *Shard) validateSeriesAndFields(points []models.Point) ([]models.Point, 
 			if dataType == influxql.Unknown {
 				continue
 			}
+
+			if _, ok := pendingTypes[string(name)][string(fieldKey)]; ok {
+				continue // an earlier point of this batch creates the field with this type
+			}
+			if pendingTypes == nil {
+				pendingTypes = make(map[string]map[string]influxql.DataType)
+			}
+			if pendingTypes[string(name)] == nil {
+				pendingTypes[string(name)] = make(map[string]influxql.DataType)
+			}
+			pendingTypes[string(name)][string(fieldKey)] = dataType
 
 			fieldsToCreate = append(fieldsToCreate, &FieldCreate{
 				Measurement: name,
